@@ -30,7 +30,7 @@ FAULT_KINDS = ["entropy_zero", "entropy_ones", "entropy_multiple_of_n", "entropy
                "prod_blinding_overwritten"]
 PROBES = ["verify_reached_infinity", "add_P_plus_minusP", "add_P_plus_P", "add_with_infinity", "mul_k_multiple_of_n",
           "mul_negative_k", "mul_k_ge_n", "sign_first_nonce_rejected", "r_ge_n_rejected", "s_ge_n_rejected",
-          "malleated_s_accepted", "recover_signer_found", "nonce_x_ge_n", "lift_no_point", "ecdh", "keysign", "keyverify_forged_der",
+          "malleated_s_accepted", "recover_signer_found", "nonce_x_ge_n", "lift_no_point", "ecdh", "keysign", "keyverify_forged_der", "sign_with_callers_nonce_source", "add_operand_representation",
           "replicas>=3", "pure_replica_on_256bit", "openssl_replica", "libsecp256k1_replica"]
 
 NIDS = {"secp256k1": 714, "secp256r1": 415}
@@ -170,7 +170,8 @@ def gen_plan(rng, tier, index, config=None):
                 Q = None
             else:
                 _, Q = point()
-            steps.append({"op": "add", "P": enc(P), "Q": enc(Q), "sub": r.chance(0.25)})
+            steps.append({"op": "add", "P": enc(P), "Q": enc(Q), "sub": r.chance(0.25),
+                          "qrep": r.weighted([("point", 6), ("tuple", 1), ("list", 1), ("x_plus_p", 1), ("y_minus_p", 1)])})
         elif op == "assoc":
             _, P = point()
             _, Q = point()
@@ -193,6 +194,10 @@ def gen_plan(rng, tier, index, config=None):
                 z = signed[-1][1]
             sr, ss, R, first = C.sign_rfc6979(d, z)
             signed.append((d, z, sr, ss, R))
+            if r.chance(0.25):
+                # the application signed the same digest earlier with its own nonce source (the gen_k hook): a constant, or
+                # the library's own RFC 6979 helper run with another hash function
+                steps.append({"op": "sign_gen_k", "d": d, "z": z, "how": r.pick(["sha512", "sha1", "const", "sha512"]), "k": r.between(1, n - 1)})
             steps.append({"op": "sign", "d": d, "z": z})
         elif op == "keysign":
             d = _d(r, n)
@@ -469,6 +474,24 @@ def _op_add(ctx, C, reps, st, hist_r, cfg):
         raise HarnessError("model add left the curve")
     _each(ctx, reps, "C02", "add:P+Q", lambda g: _pt(_P(g, st["P"]) + _P(g, st["Q"])), exp)
     _each(ctx, reps, "C02", "add:Q+P", lambda g: _pt(_P(g, st["Q"]) + _P(g, st["P"])), exp)
+    # the same second operand in another representation: a bare pair, or a Point whose coordinates are not reduced mod p
+    # (the Point constructor accepts it: it is on the curve)
+    rep = st.get("qrep", "point")
+    if rep != "point" and P is not None and Q is not None:
+        ctx.probe("add_operand_representation")
+
+        def qrep(g):
+            if rep == "tuple":
+                return (Q[0], Q[1])
+            if rep == "list":
+                return [Q[0], Q[1]]
+            if rep == "x_plus_p":
+                return g.Point(Q[0] + C.p, Q[1])
+            return g.Point(Q[0], Q[1] - C.p)
+
+        _each(ctx, reps, "C02", "add:P+Q(%s)" % rep, lambda g: _pt(_P(g, st["P"]) + qrep(g)), exp)
+        if rep in ("x_plus_p", "y_minus_p"):
+            _each(ctx, reps, "C02", "add:Q(%s)+P" % rep, lambda g: _pt(qrep(g) + _P(g, st["P"])), exp)
 
 
 def _op_assoc(ctx, C, reps, st, hist_r, cfg):
@@ -512,6 +535,32 @@ def _op_ecdh(ctx, C, reps, st, hist_r, cfg):
     ctx.probe("ecdh")
     _each(ctx, reps, "C02", "ecdh:A", lambda g: _pt(generate_shared_public_key(dA, QB, g)), exp)
     _each(ctx, reps, "C02", "ecdh:B", lambda g: _pt(generate_shared_public_key(dB, QA, g)), exp)
+
+
+def _op_sign_gen_k(ctx, C, reps, st, hist_r, cfg):
+    """Generator.sign with the caller's nonce source.  Judged: the signature verifies for the signer.  (What the plain sign
+    of the same key and digest returns afterwards is judged by the sign step that follows.)"""
+    import hashlib
+    from pycoin.ecdsa.rfc6979 import deterministic_generate_k
+    d, z, how = st["d"], st["z"], st["how"]
+    n = C.n
+    Q = C.mul(d, C.G)
+    if how == "const":
+        gen_k = lambda order, se, val: st["k"] % order or 1
+    else:
+        hf = {"sha512": hashlib.sha512, "sha1": hashlib.sha1}[how]
+        gen_k = lambda order, se, val: deterministic_generate_k(order, se, val, hash_f=hf)
+    ctx.probe("sign_with_callers_nonce_source")
+    for rid in sorted(reps):
+        g = reps[rid][0]
+        try:
+            r, s = tuple(g.sign(d, z, gen_k=gen_k))
+        except Exception as e:
+            ctx.obs("sign_gen_k", rid, "raised", type(e).__name__)
+            continue   # (a nonce source of the caller's may be unusable on this curve: nothing stated)
+        ctx.obs("sign_gen_k", rid, r, s)
+        if not (1 <= r < n and 1 <= s < n) or not C.verify(Q, z, r, s):
+            ctx.violate("C01", "signature-does-not-verify", {"replica": rid, "r": r, "s": s, "d": d, "z": z, "gen_k": how})
 
 
 def _op_sign(ctx, C, reps, st, hist_r, cfg):
@@ -744,7 +793,7 @@ def _op_rebuild(ctx, C, reps, st, hist_r, cfg):
 
 _OPS = {"mul": _op_mul, "mulsmall": _op_mulsmall, "gmul": _op_gmul, "add": _op_add, "assoc": _op_assoc, "neg": _op_neg,
         "lift": _op_lift, "ecdh": _op_ecdh, "sign": _op_sign, "verify": _op_verify, "recover": _op_recover,
-        "keysign": _op_keysign, "reblind": _op_reblind, "rebuild": _op_rebuild}
+        "keysign": _op_keysign, "sign_gen_k": _op_sign_gen_k, "reblind": _op_reblind, "rebuild": _op_rebuild}
 
 
 # ---------------------------------------------------------------------------------------------
